@@ -475,6 +475,13 @@ func c07Signed(mxid, token, keyLabel string, extra bool) jv {
 	_, priv := vfKeyFor(keyLabel)
 	signed := jobj("mxid", jstr(mxid), "token", jstr(token))
 	sig := base64.RawStdEncoding.EncodeToString(ed25519.Sign(priv, []byte(jcanon(signed))))
+	if extra {
+		// besides the valid ed25519 signature: signatures under key IDs of other algorithms by the same
+		// identity server, and an entry of another server - none of them can count, none of them hurts
+		return signed.with("signatures", jobj(
+			"id.example", jobj("curve25519:1", jstr("AAAA"), "ed25519:0", jstr(sig), "ed448:0", jstr("BBBB"), "rsa:9", jstr("CCCC"), "zz:1", jstr("DDDD")),
+			"other.example", jobj("ed448:0", jstr("EEEE"))))
+	}
 	return signed.with("signatures", jobj("id.example", jobj("ed25519:0", jstr(sig))))
 }
 
@@ -560,7 +567,7 @@ func c07GenRandomRoom(t *rapid.T) c07Case {
 			if rapid.IntRange(0, 5).Draw(t, "mxidMismatch") == 0 {
 				mxid = c07Carol
 			}
-			signed := c07Signed(mxid, "tok", rapid.SampledFrom([]string{keyLabel, keyLabel, "idkey3"}).Draw(t, "signKey"), false)
+			signed := c07Signed(mxid, "tok", rapid.SampledFrom([]string{keyLabel, keyLabel, "idkey3"}).Draw(t, "signKey"), rapid.Bool().Draw(t, "otherAlgSigs"))
 			e.Content = e.Content.with("third_party_invite", jobj("display_name", jstr("x"), "signed", signed))
 			if rapid.IntRange(0, 4).Draw(t, "hasTPIEvent") > 0 {
 				var tc jv
@@ -957,7 +964,7 @@ func c07EnumTPI(size, shard, nshards int, emit func(c07Case)) {
 		for _, tMem := range c07PrevMems {
 			for _, tpiSender := range []string{"same", "other", "absent-event"} {
 				for _, keys := range []string{"public_key", "public_keys", "both", "both-single-valid", "other-key-only", "wrong-length-key"} {
-					for _, sig := range []string{"valid", "other-key", "garbage", "none"} {
+					for _, sig := range []string{"valid", "valid+other-algorithms", "other-key", "garbage", "none"} {
 						for _, fault := range []string{"", "mxid-mismatch", "no-token", "no-signed", "no-mxid"} {
 							for _, sMem := range []string{"join", "leave"} {
 								idx++
@@ -992,7 +999,7 @@ func c07TPICase(version, tMem, tpiSender, keys, sig, fault, sMem string) c07Case
 	if fault == "mxid-mismatch" {
 		mxid = c07Carol
 	}
-	signed := c07Signed(mxid, "tok", signKey, false)
+	signed := c07Signed(mxid, "tok", signKey, sig == "valid+other-algorithms")
 	switch sig {
 	case "garbage":
 		signed = signed.with("signatures", jobj("id.example", jobj("ed25519:0", jstr("AAAA"))))
